@@ -459,7 +459,7 @@ def c11(run):
     run.exhaustive = True
 
 
-def sched(run, stage, n, invariants, depth=90, extra=(), tv=True, tokbuf=5):
+def sched(run, stage, n, invariants, depth=90, extra=(), tv=True, tokbuf=5, race=False):
     """Steered schedules: behaviours of BclPipeline *with their interleaving* (Gen_Sched, simulated) are stepped through the real
     goroutines held at their hook points; the outcome per schedule is exact. The logs of the first steered ParseFile runs are
     then validated by Trace_Pipe (which knows nothing of the schedule that produced them)."""
@@ -468,7 +468,7 @@ def sched(run, stage, n, invariants, depth=90, extra=(), tv=True, tokbuf=5):
     # TokBuf: the real channel holds 10 tokens; a token of the model is 2 real ones (4 under the nlfirst rendering)
     c = "SPECIFICATION SSpec\nCONSTANTS MaxReads = 3  TokBuf = %d  EmptyIsEOF = FALSE\nINVARIANT Emit\nCHECK_DEADLOCK FALSE\n" % tokbuf
     r, s = run.gen_replay("Gen_Sched", c, ["replay-sched", "--tvout", tr, "--tvmax", ("300" if run.quick else "3000") if tv else "0"] + list(extra), stage,
-                          simulate=10 ** 9, depth=depth, workers=1, max_cases=n)
+                          race=race, simulate=10 ** 9, depth=depth, workers=1, max_cases=n)
     ex = s.get("extra") or {}
     for k in ("steered", "steering_lost", "hook_points_steered"):
         run.extra["schedules_" + k] = run.extra.get("schedules_" + k, 0) + ex.get(k, 0)
@@ -510,6 +510,9 @@ def c12(run):
     tv_pipe(run, "C12:hb", 60 if q else 400, ("NoRace", "CloseAtMostOnce"))
     tv_pipe(run, "C12:racedet", 60 if q else 300, ("CloseAtMostOnce",), race=True, seed_off=1)
     sched(run, "C12:sched", 3000 if q else 40000, ("NoRace", "CloseAtMostOnce"))
+    # the same with every chunk ending inside a line: diagnostics are formatted for positions behind the last line feed known so far
+    # while the lexer is about to add the next chunk's line feeds
+    sched(run, "C12:sched-nl", 3000 if q else 40000, ("NoRace", "CloseAtMostOnce"), extra=("--nlfirst", "1"), tokbuf=2, race=True)   # from the -race build: the parser's work after a release is not ordered with the lexer's next refill
     run.vh(["drive-dumpconc", "--n", "8", "--rounds", "6" if q else "60", "--seed", str(run.seed)], "C12:dumps", race=True)
     run.vh(["drive-conc", "--n", "8", "--rounds", "15" if q else "120", "--seed", str(run.seed)], "C12:callers", race=True)
     run.exhaustive = False
